@@ -15,7 +15,8 @@ def run(ctx):
                           "wire-bytes-not-stable", "signing-body-not-stable", "digest-not-stable", "digest-not-double-keccak-of-held-body"))
                       or (ln.startswith("ne ") and ln.split(" ", 3)[2].startswith(("encoding-ignores-field-change", "digest-ignores-field-change"))))
     ctx.cov["rule"] = ("enc: random VAAs (payload 1..4096 bytes incl. 999/1000/1001, thorough up to 200000; 0..255 signatures; boundary "
-                       "field values) through the real Marshal+Unmarshal; dec: every truncation point of small encodings, header/"
+                       "field values; signature counts 126/127/128/129/192/254/255 every round; a Marshal error is a result: in-domain-vaa-not-encodable) "
+                       "through the real Marshal+Unmarshal; dec: every truncation point of small encodings, header/"
                        "length-byte/bit-flip/append mutations and random bytes through the real Unmarshal (panics recovered). "
                        "distinct_nontrivial = cases on which model and implementation agreed and the Spec held on the implementation's result")
     ctx.cov["trusted_base"] += ["harness/vaa/vaa_verif_test.go (generator, canonical rendering) and Whv/Driver/Vaa.lean (comparison)",
